@@ -77,7 +77,11 @@ func ExecPlan(p *Plan, pool *Pool, verbose bool) (t *core.Trace) {
 	w := NewWorld(p, pool, t)
 	configureWorld(w)
 	w.Run()
-	t.Samples = append(t.Samples, describePlan(p))
+	if p.Profile == "compose" {
+		t.Samples = append(t.Samples, describeComposePlan(p))
+	} else {
+		t.Samples = append(t.Samples, describePlan(p))
+	}
 	return t
 }
 
@@ -145,6 +149,28 @@ var worldAssumptions = []string{
 }
 
 func init() {
+	register(&Property{
+		ID: "C12", Level: "exploration", EvalCounter: "input_snapshots_compared",
+		Rule: "every Apply of the C01 history profile (all failure classes, crash/restart re-folds) and every ApplyPatches of the composer profile (including lists that fail " +
+			"at the k-th patch): deep snapshot (canonical encoding incl. nested document, operation bytes, patch values) of previous state, operation and patches before == after; " +
+			"every earlier version retained by the observer is re-verified at the end of the run; error => no state / no document. distinct_nontrivial = distinct per-DID histories " +
+			"and distinct patch-action sequences",
+		Cases: func(master uint64, tier string) []Case {
+			n := 2400
+			if tier == "thorough" {
+				n = 40000
+			}
+			return seqCases(master, n, nil)
+		},
+		Gen: func(c Case, pool *Pool) *Plan {
+			if c.Seed%2 == 0 {
+				return GenFold("C12", c.Seed, 0, pool)
+			}
+			return GenCompose("C12", c.Seed, pool)
+		},
+		Components:  worldComponents,
+		Assumptions: worldAssumptions,
+	})
 	register(&Property{
 		ID: "C01", Level: "exploration", EvalCounter: "fold_steps_checked",
 		Rule: "seeded histories (1-4 DIDs, 2-30 operations, each valid or carrying one labelled failure class, all key types, drawn protocol config, " +
